@@ -9,7 +9,7 @@ CONSTANTS
   MaxLen = 9
   MaxT = 0
   Gaps = {}
-  Bug = "nocooldown"
+  Bug = "flat"
 SPECIFICATION ISpec
 INVARIANTS Accepted NoFlap
 CHECK_DEADLOCK FALSE
